@@ -13,6 +13,7 @@ models and prints one canonical answer line per op (see harness/e4/*_test.go for
   <now> raw <method> <path> <bad 0|1> <topic|_> <channel|_> <node|_>
   <now> stream <p> <hex bytes> [<hex body>=<bcast>/<host>/<ver>/<tcp>/<http> …]
   <now> q
+  noq <line>   apply, print `noq`;   st <line>   apply, print only the reply (no query answers)
 -/
 open Nsq Nsq.Line Nsq.Model.Registry Nsq.Model.RegistryProto
 
@@ -181,6 +182,9 @@ def stepLine1 (s : DSt) (line : String) : DSt × String :=
 def stepLine (s : DSt) (line : String) : DSt × String :=
   match words line with
   | "noq" :: rest => ((stepLine1 s (" ".intercalate rest)).1, "noq")
+  | "st" :: rest =>
+    ((stepLine1 s (" ".intercalate rest)).1,
+     (((stepLine1 s (" ".intercalate rest)).2.splitOn " | ").headD ""))
   | _ => stepLine1 s line
 
 partial def loop (h : IO.FS.Stream) (out : IO.FS.Stream) (s : DSt) : IO Unit := do
